@@ -23,7 +23,18 @@
 //!   arena a0 | newset a0 s1 | unlink s1 | stashnew s1 17 h3 | stashvia s1 h3 h4 (stash the object
 //!   fetched through h3 again, in s1) | clone h3 h5 | drop h3 | fetch s1 h3 | tryfetch s1 h3 |
 //!   contains s1 h3 | dump s1 | collect a0 debt 12.5 | collect a0 mark 3 | collect a0 finmark |
-//!   collect a0 cycle 8 | collect a0 fincycle | alloc a0 <n> <keep> | clearjunk a0 | droparena a0
+//!   collect a0 cycle 8 | collect a0 fincycle | collect a0 step 0.5 (debt := exactly 0.5, then
+//!   collect_debt) | alloc a0 <n> <keep> | clearjunk a0 | droparena a0 |
+//!   weaknew a0 17 (allocate object 17, reachable ONLY through a `GcWeak` in the root's weak table) |
+//!   stashweak s1 17 h3 (`upgrade` the weak entry inside `mutate`; if it is alive stash the strong
+//!   pointer, else note `dead`) | weakdrop a0 17 (forget the weak entry) |
+//!   park s1 / unpark s1 (move the set from the root into a root-held holder object and back: it
+//!   stays reachable, but through another, separately coloured, object)
+//!
+//!   K <op>|<phase>|set=<colour>|target=<colour>|first=<0|1>|<stashed|dead>   colour cell of a stash:
+//!   colours B black, G gray, W white, w white-weak (read through `Arena::verif_snapshot`);
+//!   first=1: no other stash into a set of this arena since the current marking began
+//!   N <text>             a note (no model operation), e.g. `dead`
 //!
 //! Monitors (shadow = the multiset of live handle names, nothing else):
 //!   premature-destruct  a stashed object (or its child) was destructed while a live handle of a
@@ -34,6 +45,8 @@
 //!   foreign-accepted / own-refused   wrong answer of `contains` / `try_fetch` / `fetch`
 //!   unexpected-panic    anything panicked except the documented `fetch` mismatch
 //!   double-free / double-destruct    seen by the quarantining allocator / the drop tokens
+//!   upgrade-refused     `GcWeak::upgrade` failed for an object that a live handle of a reachable
+//!                       set keeps alive;  upgrade-of-destructed: it succeeded for a destructed one
 //!
 //! Usage:
 //!   gcverif-dynroots gen --seed <n> --cases <n> [--start <i>] [--maxops <n>]
@@ -180,6 +193,8 @@ struct Junk<'gc> {
 struct RootData<'gc> {
     sets: Vec<(u32, DynamicRootSet<'gc>)>,
     weaks: Gc<'gc, RefLock<Vec<(u64, GcWeak<'gc, Payload<'gc>>)>>>,
+    /// sets that are reachable through this holder object instead of directly from the root
+    parked: Gc<'gc, RefLock<Vec<(u32, DynamicRootSet<'gc>)>>>,
     junk: Vec<Gc<'gc, Junk<'gc>>>,
 }
 
@@ -188,7 +203,11 @@ type PayR = Rootable![Payload<'_>];
 type Handle = DynamicRoot<PayR>;
 
 fn find_set<'gc>(root: &RootData<'gc>, s: u32) -> Option<DynamicRootSet<'gc>> {
-    root.sets.iter().find(|(n, _)| *n == s).map(|(_, set)| *set)
+    root.sets
+        .iter()
+        .find(|(n, _)| *n == s)
+        .map(|(_, set)| *set)
+        .or_else(|| root.parked.borrow().iter().find(|(n, _)| *n == s).map(|(_, set)| *set))
 }
 
 // ------------------------------------------------------------------------------------------------
@@ -202,6 +221,9 @@ enum CK {
     FinMark,
     Cycle(f64),
     FinCycle,
+    /// make the outstanding debt exactly `x`, then `collect_debt`: one small, exact increment
+    /// whatever debt the allocations so far have run up
+    Step(f64),
 }
 
 #[derive(Clone, Copy, Debug, PartialEq)]
@@ -221,6 +243,11 @@ enum Op {
     Alloc { a: u32, n: u32, keep: u32 },
     ClearJunk { a: u32 },
     DropArena { a: u32 },
+    WeakNew { a: u32, p: u64 },
+    StashWeak { s: u32, p: u64, h: u32 },
+    WeakDrop { a: u32, p: u64 },
+    Park { s: u32 },
+    Unpark { s: u32 },
     /// end of the case: everything that is left is dropped, arenas first or handles first
     End { arenas_first: bool },
 }
@@ -245,10 +272,16 @@ impl Op {
                 CK::FinMark => format!("collect a{a} finmark"),
                 CK::Cycle(x) => format!("collect a{a} cycle {x}"),
                 CK::FinCycle => format!("collect a{a} fincycle"),
+                CK::Step(x) => format!("collect a{a} step {x}"),
             },
             Op::Alloc { a, n, keep } => format!("alloc a{a} {n} {keep}"),
             Op::ClearJunk { a } => format!("clearjunk a{a}"),
             Op::DropArena { a } => format!("droparena a{a}"),
+            Op::WeakNew { a, p } => format!("weaknew a{a} {p}"),
+            Op::StashWeak { s, p, h } => format!("stashweak s{s} {p} h{h}"),
+            Op::WeakDrop { a, p } => format!("weakdrop a{a} {p}"),
+            Op::Park { s } => format!("park s{s}"),
+            Op::Unpark { s } => format!("unpark s{s}"),
             Op::End { arenas_first } => format!("end {}", if arenas_first { "arenas-first" } else { "handles-first" }),
         }
     }
@@ -275,9 +308,15 @@ impl Op {
             ["collect", a, "finmark"] => Op::Collect { a: nm(a, 'a')?, k: CK::FinMark },
             ["collect", a, "cycle", x] => Op::Collect { a: nm(a, 'a')?, k: CK::Cycle(x.parse().ok()?) },
             ["collect", a, "fincycle"] => Op::Collect { a: nm(a, 'a')?, k: CK::FinCycle },
+            ["collect", a, "step", x] => Op::Collect { a: nm(a, 'a')?, k: CK::Step(x.parse().ok()?) },
             ["alloc", a, n, keep] => Op::Alloc { a: nm(a, 'a')?, n: n.parse().ok()?, keep: keep.parse().ok()? },
             ["clearjunk", a] => Op::ClearJunk { a: nm(a, 'a')? },
             ["droparena", a] => Op::DropArena { a: nm(a, 'a')? },
+            ["weaknew", a, p] => Op::WeakNew { a: nm(a, 'a')?, p: p.parse().ok()? },
+            ["stashweak", s, p, h] => Op::StashWeak { s: nm(s, 's')?, p: p.parse().ok()?, h: nm(h, 'h')? },
+            ["weakdrop", a, p] => Op::WeakDrop { a: nm(a, 'a')?, p: p.parse().ok()? },
+            ["park", s] => Op::Park { s: nm(s, 's')? },
+            ["unpark", s] => Op::Unpark { s: nm(s, 's')? },
             ["end", "arenas-first"] => Op::End { arenas_first: true },
             ["end", "handles-first"] => Op::End { arenas_first: false },
             _ => return None,
@@ -292,6 +331,10 @@ impl Op {
 struct SetSt {
     arena: u32,
     linked: bool,
+    /// reachable through the holder object instead of directly from the root
+    parked: bool,
+    /// address of the set object (for its colour), 0 if it could not be determined
+    addr: usize,
 }
 
 struct HandleSt {
@@ -306,6 +349,8 @@ struct PaySt {
     /// `Some(n)`: no live handle of a linked set of a live arena refers to it since `n`
     /// completed `finish_cycle`s
     unref_fin: Option<u32>,
+    /// the root's weak table has an entry for it
+    weak: bool,
 }
 
 #[derive(Default)]
@@ -322,6 +367,8 @@ struct Exec {
     handles: BTreeMap<u32, HandleSt>,
     pays: BTreeMap<u64, PaySt>,
     addr2id: HashMap<(u32, usize), u64>,
+    /// stashes into sets of the arena since its current marking began
+    cycle_stashes: BTreeMap<u32, u32>,
     violated: bool,
     ended: bool,
     stats: Stats,
@@ -357,6 +404,7 @@ impl Exec {
             handles: BTreeMap::new(),
             pays: BTreeMap::new(),
             addr2id: HashMap::new(),
+            cycle_stashes: BTreeMap::new(),
             violated: false,
             ended: false,
             stats: Stats::default(),
@@ -402,6 +450,8 @@ impl Exec {
                     "arena-dropped"
                 } else if !st.linked {
                     "unlinked"
+                } else if st.parked {
+                    "parked"
                 } else {
                     "linked"
                 }
@@ -512,6 +562,21 @@ impl Exec {
         }
     }
 
+    /// `K` record: the colour cell of a stash
+    fn cell(&mut self, op: &str, a: u32, phase: &str, set_colour: char, target_colour: char, stashed: bool) {
+        let n = self.cycle_stashes.entry(a).or_insert(0);
+        let first = *n == 0;
+        if stashed {
+            *n += 1;
+        }
+        let text = format!(
+            "{op}|{phase}|set={set_colour}|target={target_colour}|first={}|{}",
+            first as u8,
+            if stashed { "stashed" } else { "dead" }
+        );
+        self.line('K', &text);
+    }
+
     fn cover(&mut self, kind: &str, state: &str, phase: &str) {
         self.line('V', &format!("{kind}|{state}|{phase}"));
     }
@@ -540,6 +605,15 @@ impl Exec {
             Op::Fetch { s, h } | Op::TryFetch { s, h } | Op::Contains { s, h } => self.set_usable(s) && self.handles.contains_key(&h),
             Op::Dump { s } => self.set_usable(s),
             Op::Collect { a, .. } | Op::Alloc { a, .. } | Op::ClearJunk { a } | Op::DropArena { a } => self.arena_alive(a),
+            Op::WeakNew { a, p } => self.arena_alive(a) && !self.pays.contains_key(&p) && p < CHILD,
+            Op::StashWeak { s, p, h } => {
+                self.set_usable(s)
+                    && !self.handles.contains_key(&h)
+                    && self.pays.get(&p).is_some_and(|x| x.weak && x.arena == self.sets[&s].arena)
+            }
+            Op::WeakDrop { a, p } => self.arena_alive(a) && self.pays.get(&p).is_some_and(|x| x.weak && x.arena == a),
+            Op::Park { s } => self.set_usable(s) && !self.sets[&s].parked,
+            Op::Unpark { s } => self.set_usable(s) && self.sets[&s].parked,
             Op::End { .. } => !self.ended,
         };
         if !ok {
@@ -562,6 +636,7 @@ impl Exec {
                 let arena = Arena::<RootT>::new(|mc| RootData {
                     sets: Vec::new(),
                     weaks: Gc::new(mc, RefLock::new(Vec::new())),
+                    parked: Gc::new(mc, RefLock::new(Vec::new())),
                     junk: Vec::new(),
                 });
                 self.arenas.insert(a, Some(arena));
@@ -570,11 +645,15 @@ impl Exec {
                 let ph = self.phase_of(a);
                 self.cover("newset", "linked", ph);
                 let arena = self.arenas.get_mut(&a).unwrap().as_mut().unwrap();
+                let before: HashSet<usize> = arena.verif_snapshot().all.iter().map(|o| o.addr).collect();
                 arena.mutate_root(|mc, root| {
                     let set = DynamicRootSet::new(mc);
                     root.sets.push((s, set));
                 });
-                self.sets.insert(s, SetSt { arena: a, linked: true });
+                // `DynamicRootSet::new` allocates exactly one object: the set object
+                let fresh: Vec<usize> = arena.verif_snapshot().all.iter().map(|o| o.addr).filter(|x| !before.contains(x)).collect();
+                let addr = if fresh.len() == 1 { fresh[0] } else { 0 };
+                self.sets.insert(s, SetSt { arena: a, linked: true, parked: false, addr });
                 self.line('O', &format!("newset s{s}"));
                 self.line('A', "ok");
                 self.emit_dump(s);
@@ -584,7 +663,12 @@ impl Exec {
                 let ph = self.phase_of(a);
                 self.cover("unlink", "linked", ph);
                 let arena = self.arenas.get_mut(&a).unwrap().as_mut().unwrap();
-                arena.mutate_root(|_, root| root.sets.retain(|(n, _)| *n != s));
+                arena.mutate_root(|mc, root| {
+                    root.sets.retain(|(n, _)| *n != s);
+                    if root.parked.borrow().iter().any(|(n, _)| *n == s) {
+                        root.parked.borrow_mut(mc).retain(|(n, _)| *n != s);
+                    }
+                });
                 self.sets.get_mut(&s).unwrap().linked = false;
                 // from now on the set can never be observed again; the model treats it as gone
                 self.line('O', &format!("destroy s{s}"));
@@ -596,16 +680,19 @@ impl Exec {
                 let ph = self.phase_of(a);
                 self.cover("stash-new", "linked", ph);
                 let arena = self.arenas[&a].as_ref().unwrap();
-                let (hd, addr, before, after) = arena.mutate(|mc, root| {
+                let set_addr = self.sets[&s].addr;
+                let (hd, addr, before, after, cols) = arena.mutate(|mc, root| {
                     let set = find_set(root, s).expect("linked set in root");
                     let before = set.verif_slots();
                     let child = Gc::new(mc, Payload { id: p + CHILD, token: DropToken(p + CHILD), child: None });
                     let obj = Gc::new(mc, Payload { id: p, token: DropToken(p), child: Some(child) });
+                    let cols = colours(arena, set_addr, Gc::as_ptr(obj) as usize);
                     let hd = set.stash::<PayR>(mc, obj);
                     root.weaks.borrow_mut(mc).push((p, Gc::downgrade(obj)));
-                    (hd, Gc::as_ptr(obj) as usize, before, set.verif_slots())
+                    (hd, Gc::as_ptr(obj) as usize, before, set.verif_slots(), cols)
                 });
-                self.pays.insert(p, PaySt { arena: a, addr, unref_fin: None });
+                self.cell("stash-new", a, ph, cols.0, cols.1, true);
+                self.pays.insert(p, PaySt { arena: a, addr, unref_fin: None, weak: true });
                 self.addr2id.insert((a, addr), p);
                 self.finish_stash(s, p, h, hd, &before, &after);
             }
@@ -618,14 +705,17 @@ impl Exec {
                 let p = self.handles[&h0].ptr;
                 let arena = self.arenas[&a].as_ref().unwrap();
                 let src = &self.handles[&h0].h;
-                let (hd, id, before, after) = arena.mutate(|mc, root| {
+                let set_addr = self.sets[&s].addr;
+                let (hd, id, before, after, cols) = arena.mutate(|mc, root| {
                     let set0 = find_set(root, s0).expect("linked set in root");
                     let set = find_set(root, s).expect("linked set in root");
                     let obj = set0.fetch(src);
                     let before = set.verif_slots();
+                    let cols = colours(arena, set_addr, Gc::as_ptr(obj) as usize);
                     let hd = set.stash::<PayR>(mc, obj);
-                    (hd, obj.id, before, set.verif_slots())
+                    (hd, obj.id, before, set.verif_slots(), cols)
                 });
+                self.cell("stash-again", a, ph, cols.0, cols.1, true);
                 if id != p {
                     self.monitor(format!("fetch-identity: fetch through h{h0} returned object {id}, stashed was {p}"));
                 }
@@ -670,6 +760,7 @@ impl Exec {
                     CK::FinMark => "finish-marking",
                     CK::Cycle(_) => "cycle-debt",
                     CK::FinCycle => "finish-cycle",
+                    CK::Step(_) => "collect-step",
                 };
                 let any_live = self.handles.values().any(|x| self.sets[&x.set].arena == a && self.set_usable(x.set));
                 self.cover(kind, if any_live { "live-handles" } else { "no-live-handles" }, ph);
@@ -694,6 +785,19 @@ impl Exec {
                         arena.cycle_debt();
                     }
                     CK::FinCycle => arena.finish_cycle(),
+                    CK::Step(x) => {
+                        let m = arena.metrics();
+                        if m.allocation_debt() <= 0.0 {
+                            m.adjust_debt(1048576.0);
+                        }
+                        let d = m.allocation_debt();
+                        m.adjust_debt(x - d);
+                        arena.collect_debt();
+                    }
+                }
+                // `W` in the driver log: a marking began during this call
+                if arena.verif_take_log().contains(&b'W') {
+                    self.cycle_stashes.insert(a, 0);
                 }
                 if k == CK::FinCycle {
                     for st in self.pays.values_mut().filter(|st| st.arena == a) {
@@ -739,6 +843,100 @@ impl Exec {
                 }
                 self.refresh_unref();
                 self.check_arena(a, "after `droparena`");
+            }
+            Op::WeakNew { a, p } => {
+                let ph = self.phase_of(a);
+                self.cover("weaknew", "-", ph);
+                let arena = self.arenas[&a].as_ref().unwrap();
+                let addr = arena.mutate(|mc, root| {
+                    let child = Gc::new(mc, Payload { id: p + CHILD, token: DropToken(p + CHILD), child: None });
+                    let obj = Gc::new(mc, Payload { id: p, token: DropToken(p), child: Some(child) });
+                    // the only reference that survives this callback is weak
+                    root.weaks.borrow_mut(mc).push((p, Gc::downgrade(obj)));
+                    Gc::as_ptr(obj) as usize
+                });
+                self.pays.insert(p, PaySt { arena: a, addr, unref_fin: Some(0), weak: true });
+                self.addr2id.insert((a, addr), p);
+            }
+            Op::StashWeak { s, p, h } => {
+                let a = self.sets[&s].arena;
+                let ph = self.phase_of(a);
+                let st = self.set_state(s);
+                self.cover("stash-weak", st, ph);
+                let arena = self.arenas[&a].as_ref().unwrap();
+                let set_addr = self.sets[&s].addr;
+                let want_addr = self.pays[&p].addr;
+                let rooted = self.live_count(p);
+                let destructed = is_dropped(p);
+                let cols = colours(arena, set_addr, want_addr);
+                let r = arena.mutate(|mc, root| {
+                    let set = find_set(root, s).expect("linked set in root");
+                    let weak = root.weaks.borrow().iter().find(|(id, _)| *id == p).map(|(_, w)| *w).expect("weak entry");
+                    weak.upgrade(mc).map(|obj| {
+                        let before = set.verif_slots();
+                        let hd = set.stash::<PayR>(mc, obj);
+                        (hd, Gc::as_ptr(obj) as usize, before, set.verif_slots())
+                    })
+                });
+                self.cell("stash-weak", a, ph, cols.0, cols.1, r.is_some());
+                match r {
+                    Some((hd, addr, before, after)) => {
+                        if destructed {
+                            self.monitor(format!("upgrade-of-destructed: `{}`: GcWeak::upgrade succeeded for object {p}, which has been destructed", op.text()));
+                            std::mem::forget(hd);
+                            return;
+                        }
+                        if addr != want_addr {
+                            self.monitor(format!("fetch-identity: `{}`: upgrade returned {addr:#x}, object {p} lives at {want_addr:#x}", op.text()));
+                        }
+                        self.finish_stash(s, p, h, hd, &before, &after);
+                    }
+                    None => {
+                        self.line('N', "dead");
+                        if rooted > 0 {
+                            self.monitor(format!(
+                                "upgrade-refused: `{}`: GcWeak::upgrade failed for object {p} although {rooted} live handle(s) of a reachable set exist",
+                                op.text()
+                            ));
+                        }
+                    }
+                }
+            }
+            Op::WeakDrop { a, p } => {
+                let ph = self.phase_of(a);
+                self.cover("weakdrop", "-", ph);
+                let arena = self.arenas[&a].as_ref().unwrap();
+                arena.mutate(|mc, root| root.weaks.borrow_mut(mc).retain(|(id, _)| *id != p));
+                self.pays.get_mut(&p).unwrap().weak = false;
+            }
+            Op::Park { s } => {
+                let a = self.sets[&s].arena;
+                let ph = self.phase_of(a);
+                self.cover("park", "linked", ph);
+                let arena = self.arenas.get_mut(&a).unwrap().as_mut().unwrap();
+                arena.mutate_root(|mc, root| {
+                    if let Some(i) = root.sets.iter().position(|(n, _)| *n == s) {
+                        let e = root.sets.remove(i);
+                        root.parked.borrow_mut(mc).push(e);
+                    }
+                });
+                self.sets.get_mut(&s).unwrap().parked = true;
+                self.emit_dump(s);
+            }
+            Op::Unpark { s } => {
+                let a = self.sets[&s].arena;
+                let ph = self.phase_of(a);
+                self.cover("unpark", "parked", ph);
+                let arena = self.arenas.get_mut(&a).unwrap().as_mut().unwrap();
+                arena.mutate_root(|mc, root| {
+                    let i = root.parked.borrow().iter().position(|(n, _)| *n == s);
+                    if let Some(i) = i {
+                        let e = root.parked.borrow_mut(mc).remove(i);
+                        root.sets.push(e);
+                    }
+                });
+                self.sets.get_mut(&s).unwrap().parked = false;
+                self.emit_dump(s);
             }
             Op::End { arenas_first } => {
                 self.cover("end", if arenas_first { "arenas-first" } else { "handles-first" }, "-");
@@ -918,6 +1116,14 @@ impl Exec {
     }
 }
 
+/// Colours of the set object and of the object about to be stashed, read through the snapshot
+/// hook: `B` black, `G` gray, `W` white, `w` white-weak, `?` not found.
+fn colours(arena: &Arena<RootT>, set_addr: usize, target_addr: usize) -> (char, char) {
+    let snap = arena.verif_snapshot();
+    let find = |addr: usize| snap.all.iter().find(|o| o.addr == addr).map(|o| o.color as char).unwrap_or('?');
+    (find(set_addr), find(target_addr))
+}
+
 /// What a fetched pointer looks like: (id, address, `Gc::ptr_eq` with the independently kept weak
 /// copy of the stashed pointer, that weak copy is upgradable).  A pointer handed out for a
 /// *foreign* handle is never dereferenced.
@@ -927,6 +1133,10 @@ fn observe_fetch<'gc>(mc: &gc_arena::Mutation<'gc>, root: &RootData<'gc>, g: Gc<
         return (0, addr, false, false);
     }
     let weak = root.weaks.borrow().iter().find(|(id, _)| *id == p).map(|(_, w)| *w);
+    if weak.is_none() {
+        // the weak entry was forgotten (`weakdrop`): nothing to compare with
+        return (g.id, addr, true, true);
+    }
     let (eq, up) = match weak.and_then(|w| w.upgrade(mc)) {
         Some(strong) => (Gc::ptr_eq(strong, g) && Gc::as_ptr(strong) as usize == addr, true),
         None => (false, false),
@@ -963,27 +1173,32 @@ struct Profile {
     arenas: u32,
     sets_per_arena: u32,
     /// relative weights: stash-new, stash-again, clone, drop, query-own, query-foreign, collect,
-    /// alloc, unlink, droparena, newset, clearjunk, dump
-    w: [u64; 13],
+    /// alloc, unlink, droparena, newset, clearjunk, dump, weak scenario (colour-directed), single
+    /// weak-table operation, park / unpark
+    w: [u64; 16],
     /// upper bound for debts (in quarter units)
     debt_q: u64,
     junk: u32,
 }
 
 fn profile(rng: &mut Rng) -> Profile {
-    match rng.below(6) {
+    match rng.below(8) {
         // slot reuse: few live stashes, many drops
-        0 => Profile { arenas: 1, sets_per_arena: 2, w: [30, 6, 8, 34, 8, 3, 16, 3, 1, 0, 1, 1, 2], debt_q: 200, junk: 8 },
+        0 => Profile { arenas: 1, sets_per_arena: 2, w: [30, 6, 8, 34, 8, 3, 16, 3, 1, 0, 1, 1, 2, 1, 3, 1], debt_q: 200, junk: 8 },
         // clones of clones
-        1 => Profile { arenas: 1, sets_per_arena: 1, w: [12, 8, 34, 26, 8, 2, 14, 3, 0, 0, 1, 1, 2], debt_q: 120, junk: 6 },
+        1 => Profile { arenas: 1, sets_per_arena: 1, w: [12, 8, 34, 26, 8, 2, 14, 3, 0, 0, 1, 1, 2, 1, 2, 1], debt_q: 120, junk: 6 },
         // tiny collection increments over a big heap: operations in every phase
-        2 => Profile { arenas: 1, sets_per_arena: 2, w: [18, 6, 10, 16, 8, 3, 40, 10, 1, 0, 1, 2, 1], debt_q: 24, junk: 60 },
+        2 => Profile { arenas: 1, sets_per_arena: 2, w: [18, 6, 10, 16, 8, 3, 40, 10, 1, 0, 1, 2, 1, 2, 6, 2], debt_q: 24, junk: 60 },
         // several arenas, foreign handles, outliving handles
-        3 => Profile { arenas: 3, sets_per_arena: 2, w: [18, 5, 10, 14, 8, 22, 14, 3, 3, 3, 3, 1, 1], debt_q: 160, junk: 6 },
+        3 => Profile { arenas: 3, sets_per_arena: 2, w: [18, 5, 10, 14, 8, 22, 14, 3, 3, 3, 3, 1, 1, 1, 3, 1], debt_q: 160, junk: 6 },
         // sets being unlinked and collected
-        4 => Profile { arenas: 2, sets_per_arena: 3, w: [20, 6, 10, 14, 8, 10, 20, 4, 8, 2, 5, 1, 1], debt_q: 80, junk: 10 },
+        4 => Profile { arenas: 2, sets_per_arena: 3, w: [20, 6, 10, 14, 8, 10, 20, 4, 8, 2, 5, 1, 1, 1, 3, 2], debt_q: 80, junk: 10 },
+        // colour-directed: weakly reached objects adopted by a (black) set while marking
+        5 => Profile { arenas: 1, sets_per_arena: 2, w: [3, 2, 6, 8, 6, 2, 6, 2, 1, 0, 1, 1, 1, 30, 8, 3], debt_q: 40, junk: 6 },
+        // the same amid ordinary traffic and small increments
+        6 => Profile { arenas: 2, sets_per_arena: 2, w: [12, 4, 8, 14, 6, 4, 24, 6, 2, 1, 2, 1, 1, 10, 12, 4], debt_q: 16, junk: 30 },
         // mixed
-        _ => Profile { arenas: 2, sets_per_arena: 2, w: [20, 6, 14, 20, 10, 8, 22, 5, 2, 1, 2, 1, 2], debt_q: 100, junk: 16 },
+        _ => Profile { arenas: 2, sets_per_arena: 2, w: [20, 6, 14, 20, 10, 8, 22, 5, 2, 1, 2, 1, 2, 2, 4, 2], debt_q: 100, junk: 16 },
     }
 }
 
@@ -1009,7 +1224,8 @@ impl Gen {
     fn collect_op(&mut self, a: u32, prof: &Profile) -> Op {
         // small debts walk through a phase in several increments
         let x = if self.rng.chance(1, 2) { (1 + self.rng.below(8)) as f64 / 4.0 } else { (1 + self.rng.below(prof.debt_q)) as f64 / 4.0 };
-        let k = match self.rng.below(10) {
+        let k = match self.rng.below(12) {
+            10 | 11 => CK::Step((1 + self.rng.below(12)) as f64 / 4.0),
             0..=3 => CK::Debt(x),
             4 => CK::Mark(x),
             5 | 6 => CK::FinMark,
@@ -1035,7 +1251,7 @@ impl Gen {
         let handles = self.handles(ex);
         // a sweep is short: while one is in progress prefer handle operations to further collection
         let sweeping: Vec<u32> = arenas.iter().copied().filter(|a| ex.phase_of(*a) == "sweeping").collect();
-        if !sweeping.is_empty() && (kind == 6 || kind == 7 || kind >= 10) && self.rng.chance(3, 4) {
+        if !sweeping.is_empty() && (kind == 6 || kind == 7 || (10..=12).contains(&kind) || kind == 15) && self.rng.chance(3, 4) {
             kind = [0usize, 1, 2, 3, 3, 4, 5][self.rng.below(7) as usize];
         }
         // fully marked: a tiny debt starts the sweep without finishing it
@@ -1043,7 +1259,7 @@ impl Gen {
         if kind == 6 && !marked.is_empty() && self.rng.chance(1, 2) {
             let a = self.rng.pick(&marked).unwrap();
             let x = (1 + self.rng.below(3)) as f64 / 4.0;
-            ex.exec(Op::Collect { a, k: CK::Debt(x) });
+            ex.exec(Op::Collect { a, k: if self.rng.chance(1, 2) { CK::Step(x) } else { CK::Debt(x) } });
             return;
         }
         let op = match kind {
@@ -1109,7 +1325,33 @@ impl Gen {
                 Op::NewSet { a, s }
             }),
             11 => self.rng.pick(&arenas).map(|a| Op::ClearJunk { a }),
-            _ => self.rng.pick(&sets).map(|s| Op::Dump { s }),
+            12 => self.rng.pick(&sets).map(|s| Op::Dump { s }),
+            13 => {
+                self.weak_scenario(ex);
+                None
+            }
+            14 => {
+                // a single operation on the weak table
+                let known: Vec<u64> = ex.pays.iter().filter(|(_, st)| st.weak && ex.arena_alive(st.arena)).map(|(p, _)| *p).collect();
+                match self.rng.below(4) {
+                    0 | 1 => self.rng.pick(&arenas).map(|a| {
+                        let p = self.next_pay;
+                        self.next_pay += 1;
+                        Op::WeakNew { a, p }
+                    }),
+                    2 => self.rng.pick(&known).and_then(|p| {
+                        let a = ex.pays[&p].arena;
+                        let here: Vec<u32> = sets.iter().copied().filter(|s| ex.sets[s].arena == a).collect();
+                        self.rng.pick(&here).map(|s| {
+                            let h = self.next_handle;
+                            self.next_handle += 1;
+                            Op::StashWeak { s, p, h }
+                        })
+                    }),
+                    _ => self.rng.pick(&known).map(|p| Op::WeakDrop { a: ex.pays[&p].arena, p }),
+                }
+            }
+            _ => self.rng.pick(&sets).map(|s| if ex.sets[&s].parked { Op::Unpark { s } } else { Op::Park { s } }),
         };
         if let Some(op) = op {
             ex.exec(op);
@@ -1128,6 +1370,128 @@ impl Gen {
                         }
                     }
                 }
+            }
+        }
+    }
+
+    /// Colour-directed scenario: an object that is reachable only through the root's weak table is
+    /// weakly marked by a marking (white-weak) while the set object is black; the mutator upgrades
+    /// the weak pointer and stashes the object — as the first stash of that cycle, so that nothing
+    /// else has re-grayed the set — and keeps a handle across the sweep.  Variants: partial marking,
+    /// sweep in progress (the upgrade must fail), already destructed object (shell), set reachable
+    /// through the holder object, several sets.
+    fn weak_scenario(&mut self, ex: &mut Exec) {
+        let arenas = self.live_arenas(ex);
+        let Some(a) = self.rng.pick(&arenas) else { return };
+        let mut sets: Vec<u32> = self.usable_sets(ex).into_iter().filter(|s| ex.sets[s].arena == a).collect();
+        if sets.is_empty() {
+            let s = self.next_set;
+            self.next_set += 1;
+            ex.exec(Op::NewSet { a, s });
+            sets.push(s);
+        }
+        let s = self.rng.pick(&sets).unwrap();
+        // mostly start from a sleeping collector: the stash below is then the first of its cycle
+        if self.rng.chance(3, 4) {
+            ex.exec(Op::Collect { a, k: CK::FinCycle });
+        }
+        // the target: a fresh weak-only object, or one whose handles are all gone
+        let orphans: Vec<u64> = ex
+            .pays
+            .iter()
+            .filter(|(p, st)| st.weak && st.arena == a && !is_dropped(**p) && ex.live_count(**p) == 0)
+            .map(|(p, _)| *p)
+            .collect();
+        let p = if !orphans.is_empty() && self.rng.chance(1, 4) {
+            self.rng.pick(&orphans).unwrap()
+        } else {
+            let p = self.next_pay;
+            self.next_pay += 1;
+            ex.exec(Op::WeakNew { a, p });
+            p
+        };
+        let small = |g: &mut Gen| (1 + g.rng.below(3)) as f64 / 4.0;
+        let variant = self.rng.below(9);
+        match variant {
+            0..=2 | 7 | 8 => {
+                ex.exec(Op::Collect { a, k: CK::FinMark });
+            }
+            3 => {
+                let x = (1 + self.rng.below(16)) as f64 / 4.0;
+                ex.exec(Op::Collect { a, k: CK::Mark(x) });
+            }
+            4 => {
+                // a long sweep (the junk is newer than the target, hence swept before it): the
+                // target is condemned but not yet swept, so the upgrade must fail
+                let n = 40 + self.rng.below(60) as u32;
+                ex.exec(Op::Alloc { a, n, keep: n / 2 });
+                ex.exec(Op::Collect { a, k: CK::FinMark });
+                let x = small(self);
+                ex.exec(Op::Collect { a, k: CK::Step(x) });
+            }
+            5 => {
+                ex.exec(Op::Collect { a, k: CK::FinCycle });
+                ex.exec(Op::Collect { a, k: CK::FinCycle });
+            }
+            _ => {
+                ex.exec(Op::Collect { a, k: CK::FinMark });
+                ex.exec(if ex.sets[&s].parked { Op::Unpark { s } } else { Op::Park { s } });
+            }
+        }
+        let h = self.next_handle;
+        self.next_handle += 1;
+        ex.exec(Op::StashWeak { s, p, h });
+        let mut mine = vec![h];
+        if variant == 7 {
+            // a second set adopts the same object (not the first stash of the cycle any more)
+            let s2 = match self.rng.pick(&sets.iter().copied().filter(|x| *x != s).collect::<Vec<_>>()) {
+                Some(s2) => s2,
+                None => s,
+            };
+            let h2 = self.next_handle;
+            self.next_handle += 1;
+            ex.exec(Op::StashWeak { s: s2, p, h: h2 });
+            mine.push(h2);
+        }
+        mine.retain(|h| ex.handles.contains_key(h));
+        if mine.is_empty() || ex.violated {
+            return;
+        }
+        // clones / drops: exactly one handle (possibly a clone) survives
+        if self.rng.chance(1, 2) {
+            let c = self.next_handle;
+            self.next_handle += 1;
+            ex.exec(Op::Clone { h: mine[0], h2: c });
+            mine.push(c);
+        }
+        while mine.len() > 1 {
+            let i = self.rng.below(mine.len() as u64) as usize;
+            let victim = mine.remove(i);
+            ex.exec(Op::Drop { h: victim });
+        }
+        let keep = mine[0];
+        if self.rng.chance(1, 3) {
+            let x = small(self);
+            ex.exec(Op::Collect { a, k: CK::Debt(x) });
+        }
+        ex.exec(Op::Collect { a, k: CK::FinCycle });
+        ex.exec(Op::Collect { a, k: CK::FinCycle });
+        if ex.violated || !ex.handles.contains_key(&keep) {
+            return;
+        }
+        let ks = ex.handles[&keep].set;
+        if ex.set_usable(ks) {
+            ex.exec(if self.rng.chance(1, 2) { Op::Fetch { s: ks, h: keep } } else { Op::TryFetch { s: ks, h: keep } });
+        }
+        if self.rng.chance(1, 2) {
+            // last handle gone: collectable again; afterwards only a shell is left behind the weak
+            ex.exec(Op::Drop { h: keep });
+            ex.exec(Op::Collect { a, k: CK::FinCycle });
+            ex.exec(Op::Collect { a, k: CK::FinCycle });
+            if self.rng.chance(1, 2) && ex.set_usable(s) {
+                let h3 = self.next_handle;
+                self.next_handle += 1;
+                ex.exec(Op::StashWeak { s, p, h: h3 });
             }
         }
     }
